@@ -35,7 +35,7 @@ def run(tier, seed):
     src = open(H).read()
     qs = []
     for n in (1, 2, 3):
-        slices = [None] if n < 3 else ['a == %d' % a for a in (range(10) if tier == 'thorough' else (0, 1, 5, 7, 8))]
+        slices = [None] if n < 3 else ['a == %d' % a for a in (range(13) if tier == 'thorough' else (0, 1, 5, 7, 8, 10, 11))]
         for i, sl in enumerate(slices):
             pre = 'n == %d' % n + (' and ' + sl if sl else '')
             new = 'script_n%d_%d' % (n, i)
@@ -46,7 +46,7 @@ def run(tier, seed):
     rep.functions = ['remote.Environment._call/configure/assist/location/lint/eval', 'server.Server.run/process/configure/assist/location/lint/eval',
                      'umsgpack.dumps/loads', 'compat.nstr']
     rep.bounds = ['request scripts of 1..3 requests over {configure, assist, location, lint, eval, unknown method, wrong arity, eval that raises, '
-                  'eval with an unserialisable result, assist with a bad position type}' + ('' if tier == 'thorough' else ' (3-request scripts: 5 of 10 first requests)')]
+                  'eval with an unserialisable result (unsupported type, lone surrogate, self-referential list, integer beyond 64 bits), assist with a bad position type}' + ('' if tier == 'thorough' else ' (3-request scripts: 7 of 13 first requests)')]
     rep.assumptions = ['solver-enumerated (E): every path is one concrete script',
                        'the connection pair is in memory; Server.run is driven one message at a time (poll() raises a harness BaseException when '
                        'the inbox is empty); the real subprocess, multiprocessing connection, OS failures and multi-MiB payloads are outside '
